@@ -46,13 +46,21 @@ pub fn literal<'a>() -> impl Parser<'a, &'a str, Literal, Err<'a>> + Clone {
     recursive(|literal| {
         let int = just("-")
             .or_not()
-            .then(text::int(10).from_str::<u64>().unwrapped())
-            .map(|(sign, val)| {
-                Literal::Int(if sign.is_some() {
-                    -(val as i64)
+            .then(text::int(10))
+            .try_map(|(sign, digits): (Option<&str>, &str), span| {
+                // negative literals must fit into i64 (i64::MIN included), positive ones into u64
+                // (values above i64::MAX keep their bit pattern); anything else is a parse error
+                let parsed = if sign.is_some() {
+                    format!("-{digits}").parse::<i64>().map_err(|e| e.to_string())
                 } else {
-                    val as i64
-                })
+                    digits
+                        .parse::<u64>()
+                        .map(|val| val as i64)
+                        .map_err(|e| e.to_string())
+                };
+                parsed
+                    .map(Literal::Int)
+                    .map_err(|e| Rich::custom(span, format!("invalid integer literal `{digits}`: {e}")))
             });
 
         let float = just("-")
@@ -156,9 +164,12 @@ pub fn parser<'a>() -> impl Parser<'a, &'a str, Dqe, Err<'a>> {
             .boxed();
 
         let mb_usize = text::int(10)
+            .try_map(|v: &str, span| {
+                v.parse::<usize>()
+                    .map_err(|e| Rich::custom(span, format!("invalid slice bound `{v}`: {e}")))
+            })
             .or_not()
-            .padded()
-            .map(|v: Option<&str>| v.map(|v| v.parse::<usize>().unwrap()));
+            .padded();
 
         let slice_op = mb_usize
             .then_ignore(just("..").padded())
